@@ -455,6 +455,83 @@ func runC07(c *Ctx) {
 		})
 	}
 
+	// the read helpers themselves: an error from the connection's Read ends the read (no retry loop that swallows the
+	// deadline error the reader relies on to notice a dead or idle connection)
+	for _, rf := range []struct{ rel, name string }{{relTransport, "readMsgUdp"}, {relDnsutils, "ReadRawMsgFromTCP"}} {
+		f := c.fn(rf.rel, "", rf.name)
+		if f == nil {
+			continue
+		}
+		n := 0
+		eachInstr(f, func(in ssa.Instruction) {
+			ci, ok := in.(*ssa.Call)
+			if !ok {
+				return
+			}
+			isRead := (ci.Call.IsInvoke() && ci.Call.Method.Name() == "Read") || callName(ci) == "io.ReadFull"
+			if !isRead {
+				return
+			}
+			n++
+			ok2, why := errCheckedAndReturned(ci)
+			c.check(ok2, "read-error-ends-read@"+rf.name, instrPos(in), "a read error is returned to the reader loop on every path",
+				"a read error does not end "+rf.name+" on every path ("+why+"): an expired read deadline (a temporary error) is swallowed, the reader never closes the connection and waiting calls are never woken")
+		})
+		if n == 0 {
+			c.anchorMissing("connection read in " + rf.name)
+		}
+	}
+
+	// ---------------------------------------------------------------- R11
+	c.rule("R11", "dialFinished is closed at most once: by the dial goroutine (not closed yet) or by Close while still dialing (no connection, no dial error), both under lc.mu", 2)
+	{
+		LD := T + "lazyDnsConn."
+		n := 0
+		for _, f := range p.funcsIn(relTransport) {
+			fn := f
+			eachInstr(f, func(in ssa.Instruction) {
+				ci, ok := isCall(in, "builtin:close")
+				if !ok {
+					return
+				}
+				if k, ok := loadedField(ci.Common().Args[0]); !ok || k != LD+"dialFinished" {
+					return
+				}
+				n++
+				key := "close-dialFinished@" + funcName(fn)
+				if lf.held(in)[LD+"mu"] != lockW {
+					c.fail(key, instrPos(in), "dialFinished is closed without holding lc.mu: the two closers are not mutually exclusive")
+					return
+				}
+				notClosed, noConn, noErr := false, false, false
+				for _, g := range guardsOfInstr(in) {
+					if v, truth := g.asBool(); v != nil && !truth {
+						if k, _ := loadedField(v); k == LD+"closed" {
+							notClosed = true
+						}
+					}
+					if cm, ok := g.asCmp(); ok && cm.Op == token.EQL && isNilConst(cm.Y) {
+						switch k, _ := loadedField(cm.X); k {
+						case LD + "c":
+							noConn = true
+						case LD + "dialErr":
+							noErr = true
+						}
+					}
+				}
+				if fn.Parent() != nil { // the dial goroutine
+					c.check(notClosed, key, instrPos(in), "the dial goroutine closes dialFinished only when Close has not run", "the dial goroutine closes dialFinished although Close may already have closed it (close of closed channel)")
+					return
+				}
+				c.check(notClosed && noConn && noErr, key, instrPos(in), "Close closes dialFinished only while still dialing (not closed, no connection, no dial error)",
+					fmt.Sprintf("Close closes dialFinished without establishing that the dial is still in progress (not closed before: %v, c == nil: %v, dialErr == nil: %v): after a dial that ended (e.g. with an error) the channel is closed a second time and Close panics, leaving the remaining connections open", notClosed, noConn, noErr))
+			})
+		}
+		if n == 0 {
+			c.anchorMissing("close(dialFinished)")
+		}
+	}
+
 	// ---------------------------------------------------------------- R7
 	c.rule("R7", "bounded deadlines are armed before waiting for the peer; the waiting flag is maintained", 6)
 	deadlineConst := func(v ssa.Value) (string, bool) {
